@@ -111,7 +111,11 @@ func genElementBytes(t *rapid.T) ([]byte, string) {
 		}
 	case "x-range", "y-range":
 		var v *big.Int
-		switch rapid.IntRange(0, 4).Draw(t, "which") {
+		switch rapid.IntRange(0, 6).Draw(t, "which") {
+		case 5:
+			v = gen.PerturbWords(t, ref.P, 64)
+		case 6:
+			v = gen.PerturbWords(t, ref.P, 32)
 		case 0:
 			v = new(big.Int).Set(ref.P)
 		case 1:
